@@ -54,7 +54,9 @@ impl FastExp<f64> for f64 {
 
             f64::from_bits(bits as u64) * f2
         } else {
-            0.0
+            // Below the range of the bit trick fall back to the exact function instead of
+            // flushing to zero: e^-500 (about 7e-218) is far inside the f64 range.
+            self.exp()
         }
     }
 }
